@@ -1,10 +1,10 @@
 """C12 — PERT/CPM values equal an independent critical-path computation (finish-to-start networks)."""
 
 FS = "BaseTaskDependency.FS"
+# a finite acyclic non-empty network has a task without successors (stated, not derived: needs induction on rank)
+define("has_tail(wf)", "exists(wf.task_list, lambda x: x is not None and len(x.output_task_list) == 0)")
 define("pert_wf(wf)",
        "len(wf.task_list) > 0 and distinct_list(wf.task_list)"
-       # a finite acyclic non-empty network has a task without successors (stated, not derived: needs induction on rank)
-       " and exists(wf.task_list, lambda x: len(x.output_task_list) == 0)"
        " and forall(wf.task_list, lambda t: t is not None and t.remaining_work_amount >= 0"
        "     and forall(t.input_task_list, lambda p, d: p is not None and d == %s and exists(wf.task_list, lambda y: y is p)"
        "            and exists(p.output_task_list, lambda s, e: s is t and e == d)"
@@ -16,40 +16,40 @@ define("pert_refs(wf)", "forall(wf.task_list, lambda t: t is not None) and foral
                         " forall(t.output_task_list, lambda s, d: s is not None) and forall(t.input_task_list, lambda p, d: p is not None))")
 
 FORWARD = [
-    ("bounded:est-at-least-now", "forall(self.task_list, lambda x: x.est >= time)"),
-    ("bounded:est-relaxed", "forall(self.task_list, lambda x: forall(x.input_task_list, lambda p, d: x.est >= p.est + p.remaining_work_amount))"),
-    ("bounded:est-tight", "forall(self.task_list, lambda x: x.est == time or exists(x.input_task_list, lambda p, d: x.est == p.est + p.remaining_work_amount))"),
-    ("bounded:eft", "forall(self.task_list, lambda x: x.eft == x.est + x.remaining_work_amount)"),
+    ("bounded:est-at-least-now", "implies(old(pert_wf(self)), forall(self.task_list, lambda x: x.est >= time))"),
+    ("bounded:est-relaxed", "implies(old(pert_wf(self)), forall(self.task_list, lambda x: forall(x.input_task_list, lambda p, d: x.est >= p.est + p.remaining_work_amount)))"),
+    ("bounded:est-tight", "implies(old(pert_wf(self)), forall(self.task_list, lambda x: x.est == time or exists(x.input_task_list, lambda p, d: x.est == p.est + p.remaining_work_amount)))"),
+    ("bounded:eft", "implies(old(pert_wf(self)), forall(self.task_list, lambda x: x.eft == x.est + x.remaining_work_amount))"),
 ]
+# the backward clauses are relative to the forward pass having just been run
+FWD_DONE = "forall(self.task_list, lambda x: x.eft == x.est + x.remaining_work_amount)"
 BACKWARD = [
-    ("bounded:critical-path-length", "forall(self.task_list, lambda x: implies(len(x.output_task_list) == 0, x.eft <= self.critical_path_length))"
-                                     " and exists(self.task_list, lambda x: len(x.output_task_list) == 0 and x.eft == self.critical_path_length)"),
-    ("bounded:lft-of-tails", "forall(self.task_list, lambda x: implies(len(x.output_task_list) == 0, x.lft == self.critical_path_length))"),
-    ("bounded:lft-relaxed", "forall(self.task_list, lambda x: forall(x.output_task_list, lambda s, d: x.lft <= s.lst))"),
-    ("bounded:lft-tight", "forall(self.task_list, lambda x: implies(len(x.output_task_list) > 0, exists(x.output_task_list, lambda s, d: x.lft == s.lst)))"),
-    ("bounded:lst", "forall(self.task_list, lambda x: x.lst == x.lft - x.remaining_work_amount)"),
+    ("bounded:critical-path-length", "implies(old(pert_wf(self)), forall(self.task_list, lambda x: implies(len(x.output_task_list) == 0, x.eft <= self.critical_path_length))"
+                                     " and exists(self.task_list, lambda x: len(x.output_task_list) == 0 and x.eft == self.critical_path_length))"),
+    ("bounded:lft-of-tails", "implies(old(pert_wf(self)), forall(self.task_list, lambda x: implies(len(x.output_task_list) == 0, x.lft == self.critical_path_length)))"),
+    ("bounded:lft-relaxed", "implies(old(pert_wf(self)), forall(self.task_list, lambda x: forall(x.output_task_list, lambda s, d: x.lft <= s.lst)))"),
+    ("bounded:lft-tight", "implies(old(pert_wf(self)), forall(self.task_list, lambda x: implies(len(x.output_task_list) > 0, exists(x.output_task_list, lambda s, d: x.lft == s.lst))))"),
+    ("bounded:lst", "implies(old(pert_wf(self)), forall(self.task_list, lambda x: x.lst == x.lft - x.remaining_work_amount))"),
 ]
 NONNULL_SET = lambda s: [("members-not-none", "forall(%s, lambda x: x is not None)" % s)]
 
 contract("BaseWorkflow.__set_est_eft_data", props=["C12"], types={"time": "Int"},
-         requires=["pert_refs(self)", "pert_wf(self)"],
+         requires=["pert_refs(self)"],
          ensures=FORWARD + [("remaining-untouched", "unchanged('BaseTask.remaining_work_amount')")],
          modifies=["BaseTask.est", "BaseTask.eft"],
          loops={0: NONNULL_SET("input_task_set"), 1: NONNULL_SET("input_task_set"),
                 2: NONNULL_SET("input_task_set") + NONNULL_SET("next_task_set"), 3: NONNULL_SET("next_task_set")})
 
 contract("BaseWorkflow.__set_lst_lft_criticalpath_data", props=["C12"], types={"time": "Int"},
-         requires=["pert_refs(self)", "pert_wf(self)",
-                   # the forward pass has just been run
-                   "forall(self.task_list, lambda x: x.eft == x.est + x.remaining_work_amount)"],
-         ensures=BACKWARD,
+         requires=["pert_refs(self)", "has_tail(self)"],
+         ensures=[(l, e.replace("implies(old(pert_wf(self)),", "implies(old(pert_wf(self)) and old(%s)," % FWD_DONE, 1)) for l, e in BACKWARD],
          modifies=["BaseTask.lst", "BaseTask.lft", "BaseWorkflow.critical_path_length@self"],
          loops={0: [], 1: NONNULL_SET("output_task_set"), 2: NONNULL_SET("output_task_set"),
                 3: NONNULL_SET("output_task_set") + NONNULL_SET("prev_task_set"), 4: NONNULL_SET("prev_task_set")})
 
 contract("BaseWorkflow.update_PERT_data", props=["C12"], types={"time": "Int"},
-         requires=["pert_refs(self)", "pert_wf(self)"],
+         requires=["pert_refs(self)", "has_tail(self)"],
          ensures=FORWARD + BACKWARD + [
-             ("bounded:slack-nonnegative", "forall(self.task_list, lambda x: x.lst - x.est >= 0)"),
+             ("bounded:slack-nonnegative", "implies(old(pert_wf(self)), forall(self.task_list, lambda x: x.lst - x.est >= 0))"),
          ],
          modifies=["BaseTask.est", "BaseTask.eft", "BaseTask.lst", "BaseTask.lft", "BaseWorkflow.critical_path_length@self"])
